@@ -55,17 +55,20 @@ class Producer:
             return False
         return True
 
-    def step(self):
+    def step(self, run=True):
         x = self.items[self.i]
         self.i += 1
         md = self.metadata(x) if self.metadata else None
-        self.last = self.world.emit(self.source, x, metadata=md)
+        self.last = self.world.emit(self.source, x, metadata=md, run=run)
         return self.last
 
 
-def run_schedule(world, choices, producers, extra=None, after_step=None, allowed=tuple(range(10))):
+def run_schedule(world, choices, producers, extra=None, after_step=None, allowed=tuple(range(10)),
+                 fine=False):
     """Execute the explicit schedule.  Returns the number of steps executed.
-    Raises Pruned on a disabled choice."""
+    Raises Pruned on a disabled choice.
+    fine=True: loop-iteration granularity - emissions and completions do not let the loop run;
+    7 runs exactly one loop iteration, 8 runs the loop until nothing is ready."""
     n = 0
     for c in choices:
         c = decide(c, allowed)
@@ -76,12 +79,23 @@ def run_schedule(world, choices, producers, extra=None, after_step=None, allowed
         if c in (0, 1):
             if c >= len(producers) or not producers[c].enabled():
                 raise Pruned()
-            producers[c].step()
+            producers[c].step(run=not fine)
         elif c in (2, 3):
             p = world.pending()
             if len(p) <= c - 2:
                 raise Pruned()
-            world.complete(p[c - 2])
+            if fine:
+                p[c - 2].fut.set_result(None)
+            else:
+                world.complete(p[c - 2])
+        elif c == 7 and fine:
+            if not world.loop.ready and world.loop.next_deadline() is None:
+                raise Pruned()
+            world.loop.run_one_iteration()
+        elif c == 8 and fine:
+            if not world.loop.ready:
+                raise Pruned()
+            world.loop.run_ready()
         elif c == 4:
             if world.loop.next_deadline() is None:
                 raise Pruned()
